@@ -76,6 +76,18 @@ NEEDS = {
  "C17-f1": ("parser strips every leading '+' of the exponent, then accepts one more sign", "numeric string with a doubled exponent sign (1e+-5): accepted instead of an error"),
  "C17-f2": ("subnormal test on the exponent bits forgets the sign bit (two sites)", "negative subnormal f64 handed over through visit_f64"),
  "C17-f3": ("json_num_option rejects exponent fields longer than 7 characters", "foreign JSON with leading zeros in the exponent (1.5e+0000007) through the Option adapter"),
+ "C04-g1": ("ten_to_the_u64 became a lookup table whose 10^14 row repeats 10^13 (shared helper, feeds ==)", "scale exactly -14 rendered by Display / plain, then compared with ==: right text, 'unequal'"),
+ "C04-g2": ("FromStr fast path parses up to 19 plain digits as i64 and propagates the overflow", "renderings that are exactly 19 unsigned digits >= 2^63"),
+ "C04-g3": ("equality fast path calls ten_to_the_u64(20)", "scales differing by exactly 20 (plain text of a scale -20 decimal): wraps in release, debug_assert in debug"),
+ "C12-g1": ("count_decimal_digits via f64 log10 for u64 values", "integers just below 10^k (k = 15..19): working value of all nines is cut one digit short; p in 13..17, truncating mode, x just above a power of ten"),
+ "C12-g2": ("with_prec u64 fast path adds p/2 unchecked", "Newton product in the top sliver of the u64 range: 1/x starting 1.84.., 15-digit coefficient at p=1 (13 at p=2, 11 at p=3): result 0 in release"),
+ "C12-g3": ("limb-wise equality returns early when one side runs out of limbs", "coefficient 10^s + m*2^64 at scale s compares equal to one: is_one() shortcut returns the input as its own reciprocal"),
+ "C14-g1": ("whole-number shortcut through a saturating `as i64` in TryFrom<f32/f64>", "exactly +2^63"),
+ "C14-g2": ("to_cow_biguint_and_scale strips trailing zeros but caps only the division at 19", "stored integer with >= 20 trailing zeros and non-zero scale (e.g. subnormals with >= 20 trailing zero mantissa bits)"),
+ "C14-g3": ("owned to_f64 fast path guarded by 16 digits instead of 2^53", "coefficients in (2^53, 10^16) with scale 1..22: owned and reference forms disagree, round trip off by one ulp"),
+ "C17-g1": ("Display negates the scale in i64 before widening", "non-zero decimal with scale exactly i64::MIN (outside the quantified scale range; string form must still round-trip)"),
+ "C17-g2": ("f32 subnormal mask one bit short", "f32 tokens in the upper half of the subnormal range"),
+ "C17-g3": ("From<u128> routed through `as i128`", "u128 tokens >= 2^127"),
 }
 def sh(cmd, **kw):
     return subprocess.run(cmd, shell=True, capture_output=True, text=True, **kw)
@@ -112,7 +124,7 @@ for name in sorted(os.listdir(os.path.join(HERE, "seeded"))):
     print(name, verdict, rule, "run", run, f"{dt:.0f}s", flush=True)
 if not only:
     with open(os.path.join(HERE, "SENSITIVITY.md"), "w") as f:
-        f.write("# Sensitivity: seeded changes vs. checks\n\nEach change compiles, passes the 861-test suite, and breaks its property (demonstration in `seeded/<id>/demo.rs`, confirmation in `confirmation.txt`). Written by twenty-four sub-agents in three rounds that saw only the property text (second round: asked for subtle changes that random testing with a few thousand ordinary inputs would most likely miss). Regenerate with `tools/run_seeded.py` (applies each patch to /repo, runs the quick check, reverts).\n\n| seeded change | property | quick check | rule that fired | first failing run | what it needs |\n|---|---|---|---|---|---|\n")
+        f.write("# Sensitivity: seeded changes vs. checks\n\nEach change compiles, passes the 861-test suite, and breaks its property (demonstration in `seeded/<id>/demo.rs`, confirmation in `confirmation.txt`). Written by twenty-eight sub-agents in four rounds that saw only the property text (rounds 2-3: asked for subtle changes that random testing would most likely miss; round 4: changes confined to shared helper code outside the property's own files). Regenerate with `tools/run_seeded.py` (applies each patch to /repo, runs the quick check, reverts).\n\n| seeded change | property | quick check | rule that fired | first failing run | what it needs |\n|---|---|---|---|---|---|\n")
         for (name, prop, verdict, rule, run) in rows:
             f.write(f"| {name} | {prop} | {verdict} | {rule} | {run} | {NEEDS.get(name, ('',''))[1]} |\n")
         caught = sum(1 for r in rows if r[2] == "CAUGHT")
